@@ -143,6 +143,8 @@ func lsmOpen(x *seqExec) {
 	nk := x.j.Int("keys", 2)
 	if x.j.Str("keyset", "") == "drop" {
 		st.keys = []string{"p1a", "p1b", "p2a", "q", "p2b", "qq"}[:nk]
+	} else if x.j.Str("keyset", "") == "ten" {
+		st.keys = []string{"k0", "k1", "k2", "k3", "k4", "k5", "k6", "k7", "k8", "k9"}[:nk]
 	} else {
 		st.keys = []string{"a", "b", "c", "d"}[:nk]
 	}
